@@ -121,11 +121,13 @@ structure SeqSt where
 
 /-- `can_inline_comment(prev, comment_node, items)` of the three callers; `gap` is the text between
     `prev` and the comment, so "same row" is "no line break in it" -/
+def prevAllowsInline (m : Mode) (prev : Prev) : Bool :=
+  match m with
+  | .set => prev == .item      -- prev.type in ("binding", "inherit", "inherit_from")
+  | _ => prev != .none         -- prev is not None
+
 def canInline (m : Mode) (st : SeqSt) (gap : Text) : Bool :=
-  (match m with
-   | .set => st.prev == .item      -- prev.type in ("binding", "inherit", "inherit_from")
-   | _ => st.prev != .none) &&
-  !containsNL gap && !st.items.isEmpty
+  prevAllowsInline m st.prev && !containsNL gap && !st.items.isEmpty
 
 /-- `push_gap(prev, cur)` -/
 def pushGap (st : SeqSt) (gap : Text) : List Trivia :=
